@@ -188,6 +188,24 @@ def _alt_mask(m):
     return None
 
 
+def _refill_values(old, new) -> bool:
+    import pandas as pd
+
+    olds = list(old.values()) if isinstance(old, dict) else [old]
+    news = list(new.values()) if isinstance(new, dict) else [new]
+    if len(olds) != len(news):
+        return False
+    for o, nw in zip(olds, news):
+        if not ((isinstance(o, np.ndarray) and o.flags.writeable) or (isinstance(o, pd.Series) and isinstance(o.dtype, np.dtype))):
+            return False
+    for o, nw in zip(olds, news):
+        if isinstance(o, np.ndarray):
+            o[:] = np.asarray(nw)
+        else:
+            o.iloc[:] = np.asarray(nw)
+    return True
+
+
 def _refill_in_place(keys) -> bool:
     """The client reverses the content of its own key buffer(s), keeping the objects."""
     import pandas as pd
@@ -213,9 +231,20 @@ def _step_call(gb, step, ds, lay, class_keys=None, client=None):
     op = step["op"]
     dso = ops.sanitize(ds, op)
     client = {} if client is None else client
-    vkey = ("v", tuple(op["cols"]), dso is ds)
+    vver = op.get("values_version", 0)
+    if vver:  # the second content of the client's value buffers: rows reversed
+        dso = dict(dso, cols=[dict(c, idx=list(reversed(c["idx"]))) for c in dso["cols"]])
+    vkey = ("v", tuple(op["cols"]), dso is ds or bool(vver) and ops.sanitize(ds, op) is ds)
     if vkey not in client:
         client[vkey] = gen.build_values(dso, lay, op["cols"])
+    elif client.get(("vver",) + vkey) != vver:
+        # the client refills its own value buffers in place (same objects, new content)
+        new = gen.build_values(dso, lay, op["cols"])
+        if not _refill_values(client[vkey], new):
+            client[vkey] = new
+        else:
+            client["refilled_values"] = True
+    client[("vver",) + vkey] = vver
     values = client[vkey]
     if "mask_ref" in op:
         import pandas as pd
@@ -274,6 +303,7 @@ def gen_scenario(scen: Choices, cls, cfg):
     # *same object* in place between two calls (nothing may be remembered about its old content)
     mask_pool_alt = [_alt_mask(m) for m in mask_pool]
     mask_version = [0, 0, 0]
+    values_version = [0]
 
     def use_pool_mask(op_, j):
         if mask_pool_alt[j] is not None and scen.chance(1, 3):
@@ -328,6 +358,10 @@ def gen_scenario(scen: Choices, cls, cfg):
             allowed = ("none", "bool") if op_["op"] not in ops.BASIC + ["var", "std", "agg"] else ("none", "bool", "slice", "positions")
             if mask_pool[j]["kind"] in allowed:
                 use_pool_mask(op_, j)
+        if op_ is not None and step["kind"] in ("op", "class_form"):
+            if scen.chance(1, 6):
+                values_version[0] ^= 1
+            op_["values_version"] = values_version[0]
         steps.append(step)
         scen.end(b_)
         if step["kind"] == "class_form" and len(steps) < max_steps and scen.chance(1, 2):
@@ -452,7 +486,9 @@ def execute(sc, sched: Choices, cls, cfg):
         if kind == "class_form":
             probes.add("class_form")
         mask = ops.op_mask(op)
-        tol = ops.tolerance(op, ops.sanitize(ds, op), gen.mask_rows(ds, mask))
+        # (with the second content of the value buffers the selected rows hold other values:
+        #  bound over all rows then -- looser, still far below one data quantum)
+        tol = ops.tolerance(op, ops.sanitize(ds, op), list(range(ds["n"])) if op.get("values_version") else gen.mask_rows(ds, mask))
         unordered = op["op"] in ops.UNORDERED
         # ---- fresh model ----
         ctxm = new_ctx()
@@ -504,6 +540,8 @@ def execute(sc, sched: Choices, cls, cfg):
             layout_changed_at = si
         if client.get("refilled_mask"):
             probes.add("client_refilled_mask_buffer")
+        if client.get("refilled_values"):
+            probes.add("client_refilled_value_buffers")
         prev_state = state
         obj_prev_state[ti] = state
         if len(objs) > 1:
